@@ -145,16 +145,25 @@ class PCT(Strategy):
 
     eager = True
 
-    def __init__(self, rng, depth, est_steps):
+    def __init__(self, rng, depth, est_steps, per_phase=False):
         super().__init__(rng)
-        self.name = f"pct({depth})"
-        self.change_points = sorted(
+        self.name = f"pct({depth}{',phase' if per_phase else ''})"
+        self.depth = depth
+        self.window = max(2, est_steps)
+        self.per_phase = per_phase
+        self.change_points = [] if per_phase else sorted(
             rng.randrange(1, max(2, est_steps)) for _ in range(depth)
         )
         self.low = 0
 
     def on_spawn(self, sim, st):
         st.prio = self.rng.random() + 1.0
+        if self.per_phase:
+            live = sum(1 for t in sim.threads if t.state != DONE)
+            if live == 2:
+                # a thread pool is starting: place the change points inside this concurrent phase
+                self.change_points = sorted(sim.steps + self.rng.randrange(1, self.window) for _ in range(self.depth))
+                sim._next_consult = 0
 
     def trace_skip(self, sim):
         cps = self.change_points
@@ -223,7 +232,7 @@ def make_strategy(spec, rng):
     if kind == "rtb":
         return RunToBlock(rng)
     if kind == "pct":
-        return PCT(rng, spec[1], spec[2])
+        return PCT(rng, spec[1], spec[2], per_phase=(len(spec) > 3 and bool(spec[3])))
     if kind == "tape":
         return TapeReplay(spec[1])
     raise ValueError(spec)
